@@ -192,12 +192,12 @@ Fixpoint prp_first_inner (prime n : Z) (fs : list Z) (st : Z * list Z * list Z *
          prp_first_inner prime n tl (expo', newLf ++ [f], oldLf, exemp)
     else prp_first_inner prime n tl (primeorder, newLf, oldLf ++ [f], false)
   end.
-(* for(bool exemp = true; exemp; nextprimein(prime)) *)
+(* for(bool exemp = true; exemp; nextprimein(prime)); fix-4: newLf / oldLf are emptied at the top of every iteration *)
 Fixpoint prp_first (fuel : nat) (prime n phin : Z) (Lf newLf oldLf : list Z) : option (Z * Z * Z * list Z) :=
   match fuel with
   | O => None
   | S k =>
-    let '(primeorder, newLf', oldLf', exemp) := prp_first_inner prime n Lf (phin, newLf, oldLf, true) in
+    let '(primeorder, newLf', oldLf', exemp) := prp_first_inner prime n Lf (phin, [], [], true) in
     if exemp then prp_first k (nextprime prime) n phin Lf newLf' oldLf'
     else Some (prime, nextprime prime, primeorder, newLf')          (* A, next prime, order of A, new Lf *)
   end.
